@@ -89,7 +89,7 @@ def harness_features():
 def build_harness(flavour='san'):
     """Compile engine/*.cpp (minus main.cpp) from the current working tree + harness/cppdrv.cpp.
     Returns (path_to_binary, log).  Raises RuntimeError with the compiler output on failure."""
-    flags = BASE_FLAGS + {'san': SAN_FLAGS, 'tsan': TSAN_FLAGS, 'fast': FAST_FLAGS}[flavour]
+    flags = BASE_FLAGS + {'san': SAN_FLAGS, 'tsan': TSAN_FLAGS, 'fast': FAST_FLAGS, 'vg': ['-O1', '-g']}[flavour]
     hflags = ['-D' + f for f in harness_features()]
     d, cpps, hdrs = engine_sources()
     hdr_hash = sha(*[read(os.path.join(d, h)) for h in hdrs], *hdrs)
@@ -138,7 +138,7 @@ def build_harness(flavour='san'):
 def build_engine(flavour='san'):
     """the engine binary itself: engine/main.cpp (its own initialisation order and `Uci` construction) linked with the same
     objects as the harness.  Used for UCI sessions that must not depend on the harness' main()."""
-    flags = BASE_FLAGS + {'san': SAN_FLAGS, 'tsan': TSAN_FLAGS, 'fast': FAST_FLAGS}[flavour]
+    flags = BASE_FLAGS + {'san': SAN_FLAGS, 'tsan': TSAN_FLAGS, 'fast': FAST_FLAGS, 'vg': ['-O1', '-g']}[flavour]
     build_harness(flavour)          # makes sure the engine objects of the current tree exist
     d, cpps, hdrs = engine_sources()
     hdr_hash = sha(*[read(os.path.join(d, h)) for h in hdrs], *hdrs)
